@@ -8,7 +8,7 @@ use serde::de::DeserializeOwned;
 use serde_json::Value;
 use std::collections::HashMap;
 use std::io::ErrorKind;
-use std::sync::atomic::{AtomicU64, Ordering};
+use std::sync::atomic::{AtomicBool, AtomicU64, Ordering};
 use std::sync::{Arc, Mutex as StdMutex};
 use tokio::io::AsyncWriteExt;
 use tokio::io::{BufReader, BufWriter};
@@ -31,6 +31,10 @@ struct AsyncClientInner {
     pending: StdMutex<PendingRequests>,
     next_id: AtomicU64,
     shutdown: StdMutex<Option<oneshot::Sender<()>>>,
+    /// Set while a frame is being written (only ever touched with `writer`
+    /// locked). Still set when the lock is next taken means that write failed or
+    /// its future was dropped mid-frame, so no further frame may be sent.
+    write_torn: AtomicBool,
 }
 
 impl Drop for AsyncClientInner {
@@ -107,6 +111,7 @@ impl AsyncClient {
             pending: StdMutex::new(HashMap::new()),
             next_id: AtomicU64::new(1),
             shutdown: StdMutex::new(Some(shutdown_tx)),
+            write_torn: AtomicBool::new(false),
         });
 
         spawn_response_loop(
@@ -657,8 +662,16 @@ impl AsyncClient {
 
     async fn write_request(&self, msg: &Message) -> Result<(), RepeError> {
         let mut writer = self.inner.writer.lock().await;
+        if self.inner.write_torn.load(Ordering::Acquire) {
+            return Err(RepeError::Io(std::io::Error::new(
+                ErrorKind::BrokenPipe,
+                "connection unusable: an earlier request was interrupted mid-frame",
+            )));
+        }
+        self.inner.write_torn.store(true, Ordering::Release);
         write_message_async(&mut *writer, msg).await?;
         writer.flush().await?;
+        self.inner.write_torn.store(false, Ordering::Release);
         Ok(())
     }
 
